@@ -4,6 +4,7 @@ import (
 	"go/token"
 	"go/types"
 	"sort"
+	"strings"
 
 	"golang.org/x/tools/go/ssa"
 
@@ -31,7 +32,10 @@ type sentinelSite struct {
 	Name string
 	// Tolerant: the comparison looks through wrapping (errors.Is, Cause(x) == S): nothing to demand of the producers
 	Tolerant bool
-	At       ssa.Instruction
+	// Via: how a tolerant comparison looks through wrapping: "cause" (pkg/errors.Cause: sees through pkg/errors wrappers
+	// only) or "is" (errors.Is: sees through anything with Unwrap, i.e. pkg/errors wrappers and fmt.Errorf with %w)
+	Via string
+	At  ssa.Instruction
 }
 
 func errorResultIndex(sig *types.Signature) int {
@@ -71,7 +75,7 @@ func sentinelSites(p *ir.Program) []sentinelSite {
 			if call, ok := in.(*ssa.Call); ok {
 				if eng.CalleeRef(&call.Call) == "errors.Is" && len(call.Call.Args) == 2 {
 					if g := globalLoad(call.Call.Args[1]); isErrGlobal(g) {
-						out = append(out, sentinelSite{Fn: fn, Err: call.Call.Args[0], S: g, Name: nameOf(g), Tolerant: true, At: call})
+						out = append(out, sentinelSite{Fn: fn, Err: call.Call.Args[0], S: g, Name: nameOf(g), Tolerant: true, Via: "is", At: call})
 					}
 				}
 				return
@@ -88,14 +92,18 @@ func sentinelSites(p *ir.Program) []sentinelSite {
 			if !isErrGlobal(g) {
 				return
 			}
-			tolerant := false
+			tolerant, via := false, ""
+			errVal := x
 			if call, ok := x.(*ssa.Call); ok {
 				switch eng.CalleeRef(&call.Call) {
 				case "github.com/pkg/errors.Cause", "errors.Unwrap":
-					tolerant = true
+					tolerant, via = true, "cause"
+					if len(call.Call.Args) > 0 {
+						errVal = call.Call.Args[0]
+					}
 				}
 			}
-			out = append(out, sentinelSite{Fn: fn, Cmp: bo, Err: x, S: g, Name: nameOf(g), Tolerant: tolerant, At: bo})
+			out = append(out, sentinelSite{Fn: fn, Cmp: bo, Err: errVal, S: g, Name: nameOf(g), Tolerant: tolerant, Via: via, At: bo})
 		})
 	}
 	return out
@@ -310,12 +318,26 @@ func (sf *sentinelFlow) mayReturn(fn *ssa.Function) bool {
 				if call == nil {
 					return
 				}
+				errT := types.Universe.Lookup("error").Type()
 				for _, a := range call.Call.Args {
-					if !types.Identical(a.Type(), types.Universe.Lookup("error").Type()) {
+					if types.Identical(a.Type(), errT) {
+						if sf.carries(a) {
+							sf.wraps[call] = fn
+						}
 						continue
 					}
-					if sf.carries(a) {
-						sf.wraps[call] = fn
+					// errors handed over in a variadic ...interface{} (fmt.Errorf)
+					for _, e := range variadicElems(a) {
+						var inner ssa.Value
+						switch x := e.(type) {
+						case *ssa.ChangeInterface:
+							inner = x.X
+						case *ssa.MakeInterface:
+							inner = x.X
+						}
+						if inner != nil && types.Identical(inner.Type(), errT) && sf.carries(inner) {
+							sf.wraps[call] = fn
+						}
 					}
 				}
 			})
@@ -410,7 +432,27 @@ func ruleSentinelIdentity(c *eng.Ctx, rule string, roots []string, why string) i
 		}
 		if s.Tolerant {
 			n++
-			c.OK(s.Name+" compared through errors.Is / Cause in "+ir.FuncKey(s.Fn), c.Pos(s.At), "the comparison looks through wrapping")
+			// the comparison looks through wrapping — of the kind its helper understands: Cause() does not see through
+			// fmt.Errorf (not even with %w), errors.Is does not see through fmt.Errorf without %w
+			_, _, wraps, _ := sentinelVerdict(c.P, s)
+			opaque := ""
+			for _, w := range wraps {
+				call, isCall := w.(*ssa.Call)
+				if !isCall || eng.CalleeRef(&call.Call) != "fmt.Errorf" {
+					continue
+				}
+				if s.Via == "cause" {
+					opaque = c.Pos(w)
+				} else if f, isK := constString(call.Call.Args[0]); !isK || !strings.Contains(f, "%w") {
+					opaque = c.Pos(w)
+				}
+			}
+			construct := s.Name + " compared through errors.Is / Cause in " + ir.FuncKey(s.Fn)
+			if opaque != "" {
+				c.Violate(construct, opaque, s.Name+" is wrapped with fmt.Errorf on its way to a comparison made through "+map[string]string{"cause": "pkg/errors.Cause, which does not look through fmt.Errorf", "is": "errors.Is, and the format has no %w"}[s.Via]+" ("+c.Pos(s.At)+"): the comparison is false for it and "+why)
+				continue
+			}
+			c.OK(construct, c.Pos(s.At), "the comparison looks through the wrappers used on the way")
 			continue
 		}
 		origins, resolved, wraps, chain := sentinelVerdict(c.P, s)
